@@ -99,6 +99,7 @@ type Node struct {
 	Name    string
 	Store   Backend
 	Sim     *SimStore // non-nil when Store is the in-memory backend
+	Sql     *SqlNode  // non-nil when Store is the real sqlite backend
 	Journal *Journal
 	Mods    *ModSM
 
